@@ -142,6 +142,23 @@ static void acc_fail(acc_t *a, const char *sig, const char *fmt, ...) {
 	a->nf++;
 }
 
+/* Output budget. check.py drains the shards' pipes one after the other, so a shard that prints more than
+ * a pipe buffer (64 KB) of VIOL lines before it is finished stalls until its turn comes. While a defect is
+ * present, thousands of cases fail for the same reason; the first FULL_PER_SIG failing cases per signature
+ * (and process) carry the whole detail, later ones a short pointer. Every failing case is still reported
+ * with vf_fail, and a replay always prints the whole detail. */
+#define FULL_PER_SIG 3
+static void report(const char *sig, const char *full, long n, const char *unit) {
+	static struct { char sig[64]; int n; } seen[24];
+	int i;
+	for (i = 0; i < 24 && seen[i].sig[0]; i++) if (strcmp(seen[i].sig, sig) == 0) break;
+	if (i < 24 && !seen[i].sig[0]) snprintf(seen[i].sig, sizeof seen[i].sig, "%s", sig);
+	if (vf_replaying() || (i < 24 && seen[i].n++ < FULL_PER_SIG))
+		vf_fail(sig, "%s [first of %ld such %s in this case]", full, n, unit);
+	else
+		vf_fail(sig, "%.70s... [%ld %s; replay for detail]", full, n, unit);
+}
+
 static void acc_finish(acc_t *a) {
 	static const char *RN[2] = {"ref-rej", "ref-ok"}, *LN[3] = {"lib-rej", "lib-same", "lib-WRONG"};
 	int r, l, i;
@@ -154,8 +171,7 @@ static void acc_finish(acc_t *a) {
 				vf_count(key, a->cls[r][l]);
 				vf_obs("%s=%ld", key, a->cls[r][l]);
 			}
-	for (i = 0; i < a->nf; i++)
-		vf_fail(a->f[i].sig, "%s [first of %ld such mutation(s) in this case]", a->f[i].first, a->f[i].n);
+	for (i = 0; i < a->nf; i++) report(a->f[i].sig, a->f[i].first, a->f[i].n, "mutation(s)");
 }
 
 /* ------------------------------------------------------------------ base strings */
@@ -648,8 +664,7 @@ static void raw_finish(acc_t *a, const char *fam, long *cls) {
 	static const char *N[4] = {"nonalphabet:rejected", "nonalphabet:skipped-or-folded", "alphabet:equal", "WRONG"};
 	int i;
 	for (i = 0; i < 4; i++) if (cls[i]) { vf_outcome("%s:%s", fam, N[i]); vf_obs("%d=%ld", i, cls[i]); }
-	for (i = 0; i < a->nf; i++)
-		vf_fail(a->f[i].sig, "%s [first of %ld such string(s) in this case]", a->f[i].first, a->f[i].n);
+	for (i = 0; i < a->nf; i++) report(a->f[i].sig, a->f[i].first, a->f[i].n, "string(s)");
 }
 
 static void part_b_decode(void) {
